@@ -8,7 +8,7 @@ from fractions import Fraction
 
 from .. import canon, gen, cutfind
 from ..core import call_real, frac
-from . import c02, c10, c13, c17
+from . import c02, c06, c10, c13, c17
 
 ID = "C18"
 LEAN_MODULE = "CKT.Props.C18"
@@ -136,6 +136,11 @@ def cases(rng, tier):
         elif cls == "ccx" and p["nq"] >= 3:
             p["instrs"].insert(rng.randint(0, len(p["instrs"])), {"name": "ccx", "qubits": rng.sample(range(p["nq"]), 3)})
         yield ("find", p)
+    for kind, p in c06.cases(rng, "quick"):
+        if kind == "reconstruct" and rng.random() < 0.5:
+            p["drop"] = rng.random() < 0.7
+            p["variant"] = rng.choice(["v2", "v2", "v1shots"])
+            yield ("recon", p)
     for bad in ["h", "ccx", "unbound_rzz", "unbound_cp", "opaque2q", "measure", "barrier2", "unbound_unitary_like"]:
         yield ("refuse", {"gate": bad})
     for kind, p in c17.cases(rng, "quick"):
@@ -157,6 +162,8 @@ def model_line(kind, payload):
         return c17.model_line("expand", payload)
     if kind == "sim":
         return c13.model_line("simulate", payload)
+    if kind == "recon":
+        return c06.model_line("reconstruct", payload)
     w = payload["what"]
     if w == "generate_args":
         n = payload["n"]
@@ -210,6 +217,8 @@ def run_real(kind, payload):
         return c17.run_real("expand", payload)
     if kind == "sim":
         return c13.run_real("simulate", payload)
+    if kind == "recon":
+        return c06.run_real("reconstruct", payload)
     w = payload["what"]
     if w == "generate_args":
         from qiskit.circuit import QuantumCircuit
@@ -307,6 +316,8 @@ def model_canon(kind, payload, out):
         return c17.model_canon("expand", payload, out)
     if kind == "sim":
         return c13.model_canon("simulate", payload, out)
+    if kind == "recon":
+        return c06.model_canon("reconstruct", payload, out)
     if "driver_error" in out:
         raise RuntimeError(out["driver_error"])
     return out
@@ -325,6 +336,8 @@ def compare(kind, payload, real, model):
         return c17.compare("expand", payload, real, model)
     if kind == "sim":
         return c13.compare("simulate", payload, real, model)
+    if kind == "recon":
+        return c06.compare("reconstruct", payload, real, model)
     if ("error" in real) != ("error" in model) or real.get("error") != model.get("error"):
         return f"real={str(real)[:150]} model={str(model)[:150]}"
     if "ok" in real and payload["what"] in ("basis_id", "half") and real["ok"] != model["ok"]:
@@ -356,6 +369,8 @@ def _expected_invalid(kind, payload):
         return True
     if kind == "sim":
         return True
+    if kind == "recon":
+        return True if payload.get("drop") else None
     if kind != "validate":
         return None
     w = payload["what"]
